@@ -126,6 +126,85 @@ theorem C43_ssl30_exact (l : List (BitVec 8)) :
     · have h2 : p + 1 ≤ l.length := by omega
       simp [h0, hp, hpos, h2]
 
+/-- The dispatch in `halfConn.decrypt`: for every protocol version the record verdict computed from the
+    code's unpadder equals the one computed from the specification's. -/
+theorem C43_dispatch_exact (vers n : Nat) (P : List (BitVec 8)) (hlen : P.length < 2 ^ 31) :
+    decryptVerdict vers n P = specDecrypt vers n P := by
+  unfold decryptVerdict specDecrypt unpadFor specUnpadFor
+  by_cases h : vers = 0x0300
+  · simp only [h, if_true, (C43_ssl30_exact P).1]
+  · simp only [h, if_false, C43_exact P hlen]
+
+theorem verdictOf_true (r : List (BitVec 8) × BitVec 8) (n : Nat) :
+    (verdictOf r n).1 = true ↔ macSize ≤ r.1.length ∧ r.1.length - macSize = n ∧ r.2 = 255#8 := by
+  unfold verdictOf macSize
+  by_cases h1 : r.1.length < 20
+  · simp only [h1, if_true]; constructor
+    · intro h; simp at h
+    · rintro ⟨h, _⟩; omega
+  · simp only [h1, if_false]
+    by_cases h2 : r.1.length - 20 = n ∧ r.2 = 255#8
+    · rw [if_pos h2]; exact ⟨fun _ => ⟨by omega, h2⟩, fun _ => rfl⟩
+    · rw [if_neg h2]; constructor
+      · intro h; simp at h
+      · rintro ⟨_, h⟩; exact absurd h h2
+
+/-- For TLS 1.0 and later (every version other than SSL 3.0) a CBC record is accepted only if its padding
+    is valid in the TLS sense — every padding byte is checked — and then exactly the data is delivered. -/
+theorem C43_tls_record_accept_iff (vers n : Nat) (P : List (BitVec 8)) (hlen : P.length < 2 ^ 31)
+    (hv : vers ≠ 0x0300) :
+    (decryptVerdict vers n P).1 = true ↔
+      ValidPad P ∧ n + macSize + ((P.getD (P.length - 1) 0).toNat + 1) = P.length := by
+  rw [C43_dispatch_exact vers n P hlen]
+  unfold specDecrypt specUnpadFor
+  simp only [hv, if_false]
+  rw [verdictOf_true]
+  unfold specResult macSize
+  by_cases h0 : P.length < 1
+  · have hnv : ¬ ValidPad P := fun h => by have := h.1; omega
+    simp only [h0, if_true]
+    constructor
+    · rintro ⟨_, _, h⟩; simp at h
+    · intro h; exact absurd h.1 hnv
+  · simp only [h0, if_false]
+    by_cases hb : validPadB P = true
+    · have hV := (validPadB_iff P).mp hb
+      have hfit := hV.2.1
+      simp only [hb, if_true, List.length_take]
+      constructor
+      · rintro ⟨h1, h2, _⟩; exact ⟨hV, by omega⟩
+      · rintro ⟨_, he⟩; exact ⟨by omega, by omega, rfl⟩
+    · have hV : ¬ ValidPad P := fun h => hb ((validPadB_iff P).mpr h)
+      simp only [hb]
+      constructor
+      · rintro ⟨_, _, h⟩; simp at h
+      · intro h; exact absurd h.1 hV
+
+/-- SSL 3.0 records: accepted exactly when the announced padding fits and leaves data + MAC. -/
+theorem C43_ssl30_record_accept_iff (n : Nat) (P : List (BitVec 8)) (hlen : P.length < 2 ^ 31) :
+    (decryptVerdict 0x0300 n P).1 = true ↔
+      ValidPadSSL30 P ∧ n + macSize + ((P.getD (P.length - 1) 0).toNat + 1) = P.length := by
+  rw [C43_dispatch_exact 0x0300 n P hlen]
+  unfold specDecrypt specUnpadFor
+  simp only [if_true]
+  rw [verdictOf_true]
+  unfold specResultSSL30 ValidPadSSL30 macSize
+  generalize (P.getD (P.length - 1) 0).toNat = p
+  by_cases h : 0 < P.length ∧ p + 1 ≤ P.length
+  · have hc : (decide (0 < P.length) && decide (p + 1 ≤ P.length)) = true := by
+      rw [Bool.and_eq_true]; exact ⟨decide_eq_true h.1, decide_eq_true h.2⟩
+    rw [if_pos hc]
+    simp only [List.length_take]
+    constructor
+    · rintro ⟨h1, h2, _⟩; exact ⟨h, by omega⟩
+    · rintro ⟨_, he⟩; exact ⟨by omega, by omega, rfl⟩
+  · have hc : ¬ (decide (0 < P.length) && decide (p + 1 ≤ P.length)) = true := by
+      rw [Bool.and_eq_true]; rintro ⟨a, b⟩; exact h ⟨of_decide_eq_true a, of_decide_eq_true b⟩
+    rw [if_neg hc]
+    constructor
+    · rintro ⟨_, _, h2⟩; simp at h2
+    · intro h2; exact absurd h2.1 h
+
 example : removePaddingSSL30 [7#8, 8#8, 9#8, 1#8] = ([7#8, 8#8], 255#8) := by decide
 example : (removePaddingSSL30 [7#8, 5#8]).2 = 0#8 := by decide
 
